@@ -6,11 +6,17 @@ import (
 	"fmt"
 	"github.com/markusressel/fan2go/internal/ui"
 	"os/exec"
+	"path/filepath"
 	"strings"
 	"time"
 )
 
 func SafeCmdExecution(executable string, args []string, timeout time.Duration) (string, error) {
+	// the configured executable is a path: a bare file name is the file of that name in the working directory,
+	// which is what gets checked below. os/exec would search $PATH for it instead and run a file that was never checked.
+	if filepath.Base(executable) == executable {
+		executable = "." + string(filepath.Separator) + executable
+	}
 	if _, err := CheckFilePermissionsForExecution(executable); err != nil {
 		return "", fmt.Errorf("cannot execute %s: %s", executable, err)
 	}
